@@ -265,6 +265,8 @@ func exec(op string) (res string) {
 		return execReuseOp(w)
 	case "pages", "pagesn", "pagesx":
 		return execPages(w)
+	case "qone":
+		return execQone(w)
 	}
 	return "bad-op"
 }
